@@ -60,12 +60,19 @@ pub struct Cfg {
     /// addresses of atomic instructions (lock-prefixed, xchg with memory) in the probe's text:
     /// each gets a breakpoint, and the instant right after the instruction is a scheduling point
     pub atomic_sites: Vec<u64>,
-    /// the subset of `atomic_sites` that are compare-and-swap instructions: after one of these,
-    /// with probability 1/atomic_extra_den, 1..=atomic_extra_steps further instructions run before
-    /// the scheduling point (the windows that open right behind a lock acquisition)
+    /// after one of these (empty = after any atomic site), with probability 1/atomic_extra_den,
+    /// atomic_extra_min..=atomic_extra_steps further instructions run before the scheduling point (the windows
+    /// that open right behind a lock acquisition)
     pub cas_sites: Vec<u64>,
+    pub atomic_extra_min: u32,
     pub atomic_extra_steps: u32,
     pub atomic_extra_den: u32,
+    /// a thread preempted inside such a window is held back for 0..=hold_max further quanta
+    /// (drawn) while other threads can run: what the others do meanwhile lands inside the window
+    pub hold_max: u32,
+    /// draw the uniform scheduling mode (a thread choice at every scheduling point) in half of
+    /// the runs instead of one in six
+    pub prefer_uniform: bool,
 }
 
 impl Cfg {
@@ -84,8 +91,11 @@ impl Cfg {
             burst_den: 40,
             atomic_sites: Vec::new(),
             cas_sites: Vec::new(),
+            atomic_extra_min: 1,
             atomic_extra_steps: 6,
             atomic_extra_den: 3,
+            hold_max: 0,
+            prefer_uniform: false,
         }
     }
 }
@@ -340,6 +350,8 @@ struct Th {
     sleep_until: u64,
     burst_hint: bool,
     reaped: bool,
+    /// quanta for which the scheduler passes this thread over while others can run
+    hold: u32,
 }
 
 enum Act {
@@ -693,7 +705,7 @@ impl<'a> Tracer<'a> {
             }
         }
         self.pid = pid;
-        self.th.push(Th { tid: pid, st: St::User, ctid: 0, sleep_until: 0, burst_hint: false, reaped: false });
+        self.th.push(Th { tid: pid, st: St::User, ctid: 0, sleep_until: 0, burst_hint: false, reaped: false, hold: 0 });
         self.info.push(ThreadInfo { idx: 0, ..ThreadInfo::default() });
         match self.wait_tid(pid)? {
             Stop::Signal(libc::SIGSTOP) => {}
@@ -718,6 +730,7 @@ impl<'a> Tracer<'a> {
         // scheduling mode of this run
         self.mode = match self.dec.choose(K::Cfg, 6) {
             0 => Mode::Uniform,
+            1 | 2 if self.cfg.prefer_uniform => Mode::Uniform,
             1 => Mode::Sticky(2),
             2 => Mode::Sticky(4),
             3 => Mode::Sticky(16),
@@ -764,6 +777,14 @@ impl<'a> Tracer<'a> {
         let awake: Vec<usize> = cands.iter().copied().filter(|&t| self.th[t].sleep_until <= self.now).collect();
         if !awake.is_empty() && awake.len() < cands.len() && !self.dec.chance(K::Sched, 1, 6) {
             cands = awake;
+        }
+        // threads held back inside a window behind an atomic instruction
+        let unheld: Vec<usize> = cands.iter().copied().filter(|&t| self.th[t].hold == 0).collect();
+        if !unheld.is_empty() && unheld.len() < cands.len() {
+            cands = unheld;
+        }
+        for x in &mut self.th {
+            x.hold = x.hold.saturating_sub(1);
         }
         let n = cands.len();
         let cur_in = self.cur.filter(|c| cands.contains(c));
@@ -946,7 +967,7 @@ impl<'a> Tracer<'a> {
             }
             let idx = self.th.len();
             let cleartid = if a[0] & CLONE_CHILD_CLEARTID != 0 { a[3] } else { 0 };
-            self.th.push(Th { tid: ctid, st: St::User, ctid: cleartid, sleep_until: 0, burst_hint: false, reaped: false });
+            self.th.push(Th { tid: ctid, st: St::User, ctid: cleartid, sleep_until: 0, burst_hint: false, reaped: false, hold: 0 });
             self.info.push(ThreadInfo { idx, parent: t, ..ThreadInfo::default() });
             child = Some(idx);
             self.ptrace(libc::PTRACE_SYSCALL, tid, 0, 0)?;
@@ -1438,6 +1459,11 @@ impl<'a> Tracer<'a> {
         Ok(None)
     }
 
+    /// some other thread could run now (stopping this one inside a window is pointless otherwise)
+    fn others_runnable(&self, t: usize) -> bool {
+        (0..self.th.len()).any(|o| o != t && self.runnable(o))
+    }
+
     fn live_threads(&self) -> usize {
         self.th.iter().filter(|x| !matches!(x.st, St::Dead)).count()
     }
@@ -1467,6 +1493,7 @@ impl<'a> Tracer<'a> {
             }
         }
         let mut done = 0u32;
+        let mut after_atomic = false;
         loop {
             let mut req = libc::PTRACE_SYSCALL;
             if done < k {
@@ -1485,6 +1512,9 @@ impl<'a> Tracer<'a> {
                 }
             } else if k > 0 {
                 self.th[t].st = St::User;
+                if after_atomic && cfg.hold_max > 0 {
+                    self.th[t].hold = self.dec.choose(K::Sched, cfg.hold_max + 1);
+                }
                 if hint && t == 0 {
                     self.preempt_main_window += 1;
                 } else if hint {
@@ -1511,9 +1541,10 @@ impl<'a> Tracer<'a> {
                     self.th[t].st = St::User;
                     // right after the atomic instruction: a scheduling point, at once or a few
                     // instructions later (the windows that open behind a lock acquisition)
-                    if self.live_threads() >= 2 && cfg.atomic_extra_steps > 0 && cfg.cas_sites.binary_search(&addr).is_ok() && self.dec.chance(K::Sched, 1, cfg.atomic_extra_den) {
-                        k = 1 + self.dec.choose(K::Sched, cfg.atomic_extra_steps);
+                    if self.others_runnable(t) && cfg.atomic_extra_steps > 0 && (cfg.cas_sites.is_empty() || cfg.cas_sites.binary_search(&addr).is_ok()) && self.dec.chance(K::Sched, 1, cfg.atomic_extra_den) {
+                        k = cfg.atomic_extra_min.max(1) + self.dec.choose(K::Sched, cfg.atomic_extra_steps.saturating_sub(cfg.atomic_extra_min.max(1)) + 1);
                         done = 0;
+                        after_atomic = true;
                         self.bursts_multi += 1;
                         self.log(t, E_BURST, u64::from(k), 2, || format!("t{t} runs {k} more steps after the atomic instruction"));
                         continue;
